@@ -16,7 +16,7 @@
                                  breaks; integers fit an i64; route patterns and unquoted host names begin and end with a
                                  visible ASCII character; layout blanks are spaces and tabs; nesting < MAX_DEPTH)
      load                        the model of parse_conf followed by Config::from_tree (coq/theories/Config.v) *)
-From Hv Require Import Prelude Bytes TablesConfig Config ConfigProofs ConfigSpec ConfigRenderProofs ConfigSemProofs.
+From Hv Require Import Prelude Bytes Krauss TablesConfig Config ConfigProofs ConfigSpec ConfigRenderProofs ConfigSemProofs ConfigQuoteProofs.
 Open Scope N_scope.
 
 (* ---- a file that follows the syntax loads into exactly what it describes, for EVERY layout ---- *)
@@ -114,6 +114,13 @@ Proof. exact unknown_unit_rejected. Qed.
 Theorem C15_unterminated_quote_rejected :
   forall (key s : bytes), forallb (fun b => negb (b =? 34)) s = true -> type_value key (QUOTE :: s) = Err E_Value.
 Proof. exact unterminated_quote_value. Qed.
+
+(* the model's quoted-string test on bytes IS the code's wildcard_match("\"*\"", value) on characters (C05's matcher model on
+   the decoded scalar values), for every UTF-8 string *)
+Theorem C15_is_quoted_is_wildcard_match :
+  forall v : bytes, utf8_valid v = true ->
+    (Krauss.wildcard_match [34; 42; 34] (utf8_decode v) = true <-> is_quoted v = true).
+Proof. exact is_quoted_wildcard. Qed.
 
 (* ---- a file with a fault is rejected with the file and the line of the fault ---- *)
 (* General form: raw lines (IRaw) that are bad on their own may stand anywhere in the tree; scan_items walks the tree in
@@ -274,6 +281,7 @@ Print Assumptions C15_routes_in_file_order.
 Print Assumptions C15_parse_size_correct.
 Print Assumptions C15_unknown_unit_rejected.
 Print Assumptions C15_unterminated_quote_rejected.
+Print Assumptions C15_is_quoted_is_wildcard_match.
 Print Assumptions C15_reject_line.
 Print Assumptions C15_reject_line_top.
 Print Assumptions C15_missing_value_rejected.
